@@ -348,11 +348,108 @@ def render(decls) -> str:
     return '\n'.join(lines) + '\n'
 
 
+
+# --------------------------------------------------------------------------------------------------------
+# target lists (`record +cpp`, `interface +objc +cppcli`, `function -cpp -java`, …)
+# --------------------------------------------------------------------------------------------------------
+
+TARGET_KEYS = ['cpp', 'cppcli', 'java', 'objc', 'yaml']     # `API().generation_targets` (the parser accepts every supported key)
+
+
+def effective_targets(flags: str, keys=TARGET_KEYS) -> list[str]:
+    """`Parser.visitTargets`: the `+x` (or all, for `+any` / exclusions only) minus the `-x`; [] = nothing written or all excluded"""
+    toks = flags.split()
+    inc, exc = (list(keys) if '+any' in toks else []), []
+    for t in toks:
+        if t == '+any':
+            continue
+        if t[0] == '+':
+            if t[1:] not in inc:
+                inc.append(t[1:])
+        else:
+            exc.append(t[1:])
+    if not inc and exc:
+        inc = list(keys)
+    return [k for k in inc if k not in exc]
+
+
+def target_subsets(keys=TARGET_KEYS) -> list[tuple]:
+    """every non-empty subset of the target keys, grouped round-robin by (cpp in it, java in it): any 4 consecutive entries hold
+    one list with neither, one with cpp only, one with java only, one with both (besides objc / cppcli / yaml)"""
+    subsets = [tuple(k for i, k in enumerate(keys) if m >> i & 1) for m in range(1, 2 ** len(keys))]
+    cls = {}
+    for s in subsets:
+        cls.setdefault(('cpp' in s, 'java' in s), []).append(s)
+    order = [(False, False), (True, False), (False, True), (True, True)]
+    out = []
+    for i in range(max(len(v) for v in cls.values())):
+        for c in order:
+            out.append(cls[c][i % len(cls[c])])
+    return out
+
+
+def spell_targets(r: random.Random, subset, keys=TARGET_KEYS) -> str:
+    """one of the spellings of a target list: `+a +b` (any order, repetitions), `-c -d`, `+any -c`, `+a +b +c -c`"""
+    subset = list(subset)
+    rest = [k for k in keys if k not in subset]
+    forms = ['plus', 'plus', 'dup', 'mixed'] + (['minus', 'any'] if rest else ['any'])
+    form = r.choice(forms if subset else ['cancel'])
+    plus = lambda l: ' '.join('+' + k for k in l)
+    minus = lambda l: ' '.join('-' + k for k in l)
+    sh = r.sample(subset, len(subset))
+    if form == 'plus':
+        s = plus(sh)
+    elif form == 'dup':
+        s = plus(sh + [r.choice(sh)])
+    elif form == 'mixed' and rest:
+        x = r.choice(rest)
+        s = plus(sh + [x]) + ' ' + minus([x])
+    elif form == 'minus':
+        s = minus(r.sample(rest, len(rest)))
+    elif form == 'any':
+        s = ('+any ' + minus(rest)).strip()
+    elif form == 'cancel':
+        x = r.choice(keys)
+        s = f'+{x} -{x}'
+    else:
+        s = plus(sh)
+    assert sorted(effective_targets(s, keys)) == sorted(subset), (s, subset)
+    return s
+
+
+class TargetRotation:
+    """target lists for the declarations of a stream of programs: walks `target_subsets()` from a seed-dependent offset (one walk per
+    declaration kind), so that a handful of programs meets every class of list; spelling at random"""
+
+    def __init__(self, r: random.Random, plain_p=0.2, java_record_p=1.0):
+        self.r = r
+        self.subsets = target_subsets()
+        self.pos = {k: r.randrange(len(self.subsets)) for k in ('record', 'interface', 'function')}
+        self.plain_p = plain_p
+        # `record +java`: Java declares `<Name>Base`, the class `<Name>` is the user's to write (the generated Java alone does not
+        # compile): streams judged by javac keep such records rare
+        self.java_record_p = java_record_p
+
+    def next(self, kind: str) -> tuple[str, list[str]]:
+        """(written flags, effective list); records: [] = an ordinary record; interfaces / functions: nothing written = all keys"""
+        if self.r.random() < self.plain_p:
+            flags = '' if self.r.random() < 0.7 else spell_targets(self.r, [])
+        else:
+            while kind == 'record' and 'java' in self.subsets[self.pos[kind] % len(self.subsets)] and self.r.random() >= self.java_record_p:
+                self.pos[kind] += 1
+            flags = spell_targets(self.r, self.subsets[self.pos[kind] % len(self.subsets)])
+            self.pos[kind] += 1
+        eff = effective_targets(flags)
+        if kind != 'record' and not eff:
+            eff = list(TARGET_KEYS)
+        return flags, eff
+
+
 class ProgGen:
     """Random valid programs inside the closed feature set."""
 
     def __init__(self, r: random.Random, java_compiles=False, base_records=False, max_decls=9, names=None, inline_user_types=False,
-                 inline_p=0.12, user_p=0.35, async_p=0.2, min_methods=0, member_names=None):
+                 inline_p=0.12, user_p=0.35, async_p=0.2, min_methods=0, member_names=None, target_lists=None):
         self.r = r
         self.java_compiles = java_compiles      # C07: stay inside what javac accepts (throws only same namespace, …)
         self.base_records = base_records
@@ -366,6 +463,9 @@ class ProgGen:
         self.async_p = async_p
         self.min_methods = min_methods
         self.used_fn_sigs = set()
+        # `TargetRotation`: records / interfaces / named functions get target lists from the whole lattice of lists (default: the
+        # few lists of the older streams, drawn from `r`)
+        self.target_lists = target_lists
 
     def members(self, n):
         return self.r.sample(self.member_names, n)
@@ -418,7 +518,9 @@ class ProgGen:
             elif kind == 'record':
                 earlier = [x for x in decls if x['kind'] in ('enum', 'flags', 'record')]
                 d['fields'] = [(m, self.dtype(earlier)) for m in self.members(r.randint(0, 4))]
-                if self.base_records and r.random() < 0.3:
+                if self.target_lists is not None:
+                    d['flags'], d['targets'] = self.target_lists.next('record')
+                elif self.base_records and r.random() < 0.3:
                     d['flags'] = r.choice(['+cpp', '+java', '+objc', '+cppcli', '+cpp +java'])
             elif kind == 'error':
                 earlier = [x for x in decls if x['kind'] == 'enum']
@@ -428,18 +530,24 @@ class ProgGen:
             elif kind == 'function':
                 earlier = [x for x in decls if x['kind'] in ('enum', 'flags', 'record', 'interface')]
                 d['flags'] = r.choice(['', '', '+cpp', '-cpp'])
+                if self.target_lists is not None:
+                    d['flags'], d['targets'] = self.target_lists.next('function')
                 d['params'] = [(pn, self.dtype(earlier, kinds=('enum', 'flags', 'record', 'interface'))) for pn in self.members(r.randint(0, 3))]
                 d['ret'] = self.dtype(earlier, kinds=('enum', 'flags', 'record')) if r.random() < 0.5 else None
             elif kind == 'interface':
                 earlier = [x for x in decls if x['kind'] != 'error']
                 errs = [x for x in decls if x['kind'] == 'error']
                 d['flags'] = r.choice(['+cpp', '+cpp', '-cpp', ''])
+                cpp_only = d['flags'] == '+cpp'
+                if self.target_lists is not None:
+                    d['flags'], d['targets'] = self.target_lists.next('interface')
+                    cpp_only = d['targets'] == ['cpp']       # `static` is accepted on interfaces implemented in C++ alone
                 if errs:
                     d['ns'] = shared_ns
                 ms = []
                 for mn in self.members(r.randint(self.min_methods, 4)):
                     m = {'name': mn}
-                    if d['flags'] == '+cpp' and r.random() < 0.25:
+                    if cpp_only and r.random() < 0.25:
                         m['static'] = True
                     elif r.random() < 0.2:
                         m['const'] = True
